@@ -1249,13 +1249,26 @@ impl<'a> Exchange<'a> {
         // counter value replayed. Writes happen once per
         // `GROUP_DATA_CTR_EPOCH` messages, not per message.
         if let Some(boundary) = boundary {
-            kv.access(|store, buf| {
+            let stored = kv.access(|store, buf| {
                 store.store(
                     crate::persist::GROUP_DATA_COUNTER_KEY,
                     &boundary.to_le_bytes(),
                     buf,
                 )
-            })?;
+            });
+
+            if let Err(e) = stored {
+                // Nothing durable covers the reserved value (nor the rest of its
+                // epoch): give it back, so that the next reservation demands the
+                // store again instead of handing out uncovered values.
+                matter.with_state(|state| {
+                    state
+                        .sessions
+                        .resume_global_group_data_ctr(group_data_ctr)
+                });
+
+                return Err(e);
+            }
 
             debug!(
                 "Group data message counter boundary persisted: {}",
